@@ -22,7 +22,7 @@ ASSUMPTIONS = [
     "Column-count violations need at least two records (a single line has no other line to disagree with).",
     "Extra columns are legal in SAM (tags) and VCF (samples), so more/double-column violations are not injected there.",
 ]
-REQUIRED_CLASSES = ["bad-marker", "bad-plus", "non-numeric", "bad-strand", "fewer-columns", "more-columns", "double-columns",
+REQUIRED_CLASSES = ["non-numeric-in-all-dot-column", "malformed-float", "sign-only", "bad-marker", "bad-plus", "non-numeric", "bad-strand", "fewer-columns", "more-columns", "double-columns",
                     "lazy", "eager", "gzip", "offender-not-in-first-chunk", "format-exception"]
 BOUNDS = {"quick": "core: fasta2, fastq, bed3, bed6 with 2..3 records of width 1..2, all p, all k, 4 flag combinations; 60 sampled files for each of 9 formats",
           "thorough": "core: 2..4 records widths {1,2,5}; 1200 sampled files per format"}
@@ -31,7 +31,10 @@ BUDGET_S = {"quick": 200, "thorough": 1500}
 NUMERIC_COLS = {"bed3": [1, 2], "bed6": [1, 2, 4], "bdg": [1, 2], "narrowpeak": [1, 2, 9], "vcf": [1], "sam": [1, 3, 4], "gtf": [3, 4],
                 "chromsizes": [1]}
 STRAND_COLS = {"bed6": 5, "narrowpeak": 5, "gtf": 6}
-BAD_NUM = ["x", "12a", "a12", "1x2", "1P", "P", "1.5x", "7Q", "3 "]
+BAD_NUM = ["x", "12a", "a12", "1x2", "1P", "P", "1.5x", "7Q", "3 ", "-", "+", "1-", "--1", "1-2"]
+# float-typed columns and texts that are not decimal or scientific numbers (a lone sign, two decimal points, an exponent without digits)
+FLOAT_COLS = {"bdg": [3], "narrowpeak": [6, 7, 8]}
+BAD_FLOAT = ["x", "1.5x", "-", "1.2.3", "1..5", "--1.0", "1.-5", "1e-", "1.0e+", "-e1", "1,5"]
 BAD_STRAND = ["x", "K", "M", "N", "*", "p"]
 LINES_PER = {"fasta2": 2, "fastq": 4}
 COLUMN_COUNT_KINDS = ("fewer-columns", "more-columns", "double-columns")
@@ -92,6 +95,10 @@ def malformed_bytes(case):
     per = LINES_PER.get(fmt.kind, 1)
     first = v["pos"] * per
     admissible = {first, first + 2} if v["kind"] == "bad-plus" else {first}
+    if v.get("all_dot_column"):
+        # every other row of the column holds the placeholder '.', which is only a valid value when the whole column is '.':
+        # with one other text in the column the first line that is "not a number" may be any line up to the injected one
+        admissible = set(range(0, first + 1))
     if v["kind"] in COLUMN_COUNT_KINDS:
         # a disagreement in column count is between line p and its neighbour: the code reports the first line that
         # differs from the line it took the count from, which is p, or p+1 when p is the line the count was taken from
@@ -133,6 +140,12 @@ def classify(case):
         cl.append("crlf")
     if v["pos"] == len(case["records"]) - 1:
         cl.append("offender-last")
+    if v.get("all_dot_column"):
+        cl.append("non-numeric-in-all-dot-column")
+    if v.get("float_column"):
+        cl.append("malformed-float")
+    if v["kind"] == "non-numeric" and v["text"] in ("-", "+"):
+        cl.append("sign-only")
     return nontrivial, cl
 
 
@@ -143,6 +156,12 @@ def check(case, stats=None):
     data, admissible, offset = malformed_bytes(case)
     exc, n = _consume(data, fmt, case["k"], bool(case["lazy"]), bool(case["gzip"]))
     tag = f"{v['kind']}:{case['fmt']}"
+    if v["kind"] == "non-numeric":
+        t = v["text"]
+        what = ("sign-only" if t in ("-", "+") else "float-two-points" if t.count(".") > 1 else "float-sign-only" if v.get("float_column") and t in ("-", "-e1")
+                else "float-exponent-without-digits" if v.get("float_column") and t[-1:] in "-+e" else None)
+        if what:
+            tag = f"{v['kind']}:{what}"
     if exc is None:
         return [Failure(f"C15:not-reported:{tag}", {"rows_returned": n, "k": case["k"], "data": data[:300]})]
     out = []
@@ -153,7 +172,7 @@ def check(case, stats=None):
         if ln is None or int(ln) not in admissible:
             out.append(Failure(f"C15:line-number:{tag}", {"reported": None if ln is None else int(ln), "admissible": sorted(admissible),
                                                           "k": case["k"], "lazy": case["lazy"], "gzip": case["gzip"]}))
-        ref, _ = (None, None) if v["kind"] in COLUMN_COUNT_KINDS else _consume(data, fmt, None, False, False)
+        ref, _ = (None, None) if (v["kind"] in COLUMN_COUNT_KINDS or v.get("all_dot_column")) else _consume(data, fmt, None, False, False)
         if isinstance(ref, FormatException) and ref.line_number is not None and ln is not None and int(ref.line_number) != int(ln):
             out.append(Failure(f"C15:line-number-varies:{tag}", {"whole_read": int(ref.line_number), "this_config": int(ln),
                                                                  "k": case["k"], "lazy": case["lazy"], "gzip": case["gzip"]}))
@@ -207,10 +226,15 @@ def sampled_case(draw, fmt, max_records, W):
     case = draw(S.file_case(fmt, min_records=2, max_records=max_records, W=W, canonical=True))
     nrec = len(case["records"])
     kind = draw(st.sampled_from(kinds_for(fmt, nrec)))
+    all_dot = fmt in ("bed6", "narrowpeak") and draw(st.integers(0, 4)) == 0
+    if all_dot:
+        kind = "non-numeric"
     p = draw(st.one_of(st.integers(0, nrec - 1), st.just(nrec - 1)))
     v = {"kind": kind, "pos": p}
     if kind == "non-numeric":
-        v.update(col=draw(st.sampled_from(NUMERIC_COLS[fmt])), text=draw(st.sampled_from(BAD_NUM)))
+        v.update(col=4 if all_dot else draw(st.sampled_from(NUMERIC_COLS[fmt])), text=draw(st.sampled_from(BAD_NUM)))
+        if fmt in FLOAT_COLS and not all_dot and draw(st.booleans()):
+            v.update(col=draw(st.sampled_from(FLOAT_COLS[fmt])), text=draw(st.sampled_from(BAD_FLOAT)), float_column=True)
     elif kind == "bad-strand":
         v.update(col=STRAND_COLS[fmt], text=draw(st.sampled_from(BAD_STRAND)))
     elif kind == "bad-marker":
@@ -218,10 +242,17 @@ def sampled_case(draw, fmt, max_records, W):
     elif kind == "bad-plus":
         v["text"] = draw(st.sampled_from(["-", "K", "@", "A"]))
     if fmt in ("bed6", "narrowpeak") and kind == "non-numeric" and v["col"] == 4:
-        # the score column may legitimately be '.' in every row; keep the violation unambiguous
-        for r in case["records"]:
-            if r[4] == ".":
-                r[4] = "0"
+        if all_dot:
+            # the score column is the placeholder '.' in every row (a legal file) except for the injected text, which has no digit
+            for r in case["records"]:
+                r[4] = "."
+            v["text"] = draw(st.sampled_from(["x", "NA", "-", "abc", "+", ".."]))
+            v["all_dot_column"] = True
+        else:
+            # keep the violation unambiguous: the other rows hold numbers
+            for r in case["records"]:
+                if r[4] == ".":
+                    r[4] = "0"
     case["violation"] = v
     data, adm, offset = malformed_bytes(case)
     size = len(data)
